@@ -22,7 +22,7 @@ Exprs == {E(Bin("+", Lit(1), Bin("*", Lit(2), Lit(3)))),
           E(Bin("/", Lit(7), Lit(2))), E(Bin("/", [o |-> "neg", a |-> Lit(7)], Lit(2))),
           E(Bin("-", Bin("-", Lit(10), Lit(2)), Lit(3))), E(Bin("%", Lit(300), Lit(7)))}
 Strings == {Str(<< >>), Str(<<97>>), Str(<<97, 44, 98>>), Str(<<120, 59, 121>>), Str(<<112, 35, 113>>),
-            Str(<<97, 32, 98>>), Str(<<115, 34, 104, 105, 34>>), Str(<<39, 113>>)}
+            Str(<<97, 32, 98>>), Str(<<99, 195, 169>>), Str(<<227, 129, 130>>), Str(<<115, 34, 104, 105, 34>>), Str(<<39, 113>>)}
 Syms == {E([o |-> "id", nm |-> "lbl0"]), E([o |-> "$"]), E(Bin("+", [o |-> "id", nm |-> "lbl0"], Lit(2))),
          E([o |-> "id", nm |-> "K5"]),
          \* identifiers may contain `.` and `$` (grammar: [a-zA-Z$_.][a-zA-Z$_.0-9]*)
